@@ -1,4 +1,5 @@
 import BSEGen.Writers
+import BSEModel.Notation
 /-! Model of the header assembly in `writers.write_formatted_basis_str`:
 `comment + comment.join(header.splitlines(True))`, the gaussian94lib and psi4 special cases. -/
 namespace BSE.Header
@@ -43,5 +44,19 @@ def assemble (fmt : String) (body : Str) (hdr : Option Str) (cartesian : Bool) :
         else commentBlock c.toList h ++ ['\n', '\n'] ++ body
       | _, _ => body
     some (if fmt == "psi4" then (if cartesian then "cartesian".toList else "spherical".toList) ++ ['\n', '\n'] ++ r else r)
+
+/-! ## what a reader sees: `prune_lines(text.splitlines(), skipchars)` -/
+open BSE.Notation (isPySpace) in
+/-- `str.strip()` -/
+def stripLine (l : Str) : Str := ((l.dropWhile isPySpace).reverse.dropWhile isPySpace).reverse
+
+/-- `helpers.prune_lines(lines, skipchars)` (blank lines pruned) -/
+def pruneLines (skip : List Char) (lines : List Str) : List Str :=
+  ((lines.map stripLine).filter (fun l => match l with | [] => true | c :: _ => !skip.contains c)).filter (fun l => !l.isEmpty)
+
+/-- what the reader works on: `prune_lines(text.splitlines(), skipchars)`; the line ends that `splitlines(True)` keeps are white
+space, `strip` removes them -/
+def readerLines (skip : List Char) (text : Str) : List Str := pruneLines skip (splitlinesKeep text)
+
 
 end BSE.Header
